@@ -87,6 +87,9 @@ def run(ctx):
         states=states, transitions=trans, traces_validated_against_impl=s["runs"] + s.get("stress_runs", 0), samples=s["samples"][:2],
         model_runs=consts, schedules_emitted=emitted, schedules_replayed=s["scenarios"], steps=s["steps"], stress_runs=s.get("stress_runs", 0),
         race_detector_runs=60 if quick else 1500, race_reports=races, hung=s.get("hung", 0), events=nlines,
+        atomicity_probes=dict(attempted=s.get("atomicity_probes", 0), other_caller_not_blocked=s.get("atomicity_probes_entered", 0),
+                              note="a StartWatches held at its second snapshot while the next StartWatches of the schedule is released: "
+                                   "on a lock-protected segment the other caller blocks (unless it holds an older controller instance)"),
         drift=dict(steps_out_of_sync=s["drift"], runs_with_drift=s["drift_runs"]),
         monitor_formulas=FORMULAS, exhaustive=(emitted == len(scs)),
         checker_cmd="tlc MCEngine (M,G) -> harness/drivers/engine on /repo (T) -> tlc MonEngine; go build -race stress",
